@@ -85,6 +85,17 @@ def model_check(module, cfg, workdir, workers=16, timeout=1500, args=()):
     return r
 
 
+def expect_counterexample(module, cfg, invariant, workdir, workers=4, timeout=600):
+    """A configuration that switches a documented deviation of the code on (constant KF_*) must make TLC violate the named
+    invariant: the check that the invariants of the design are not vacuous.  Raises TlcError when it does not."""
+    res = run(module, cfg, workdir, workers=workers, timeout=timeout)
+    want = "Error: Invariant %s is violated." % invariant
+    if want not in res["errors"]:
+        raise TlcError("%s no longer yields a counterexample to %s (vacuous invariant or model?): %s"
+                       % (cfg, invariant, res["errors"][:2] or res["stdout"][-300:]))
+    return res
+
+
 def simulate(module, cfg, workdir, num, depth, seed, timeout=600, only=None):
     """Generate `num` behaviours of length <= depth; returns (list of behaviours, result).
     A behaviour is the list of steps from tlaparse.parse_trace_file."""
